@@ -359,9 +359,25 @@ def fold_str(e, fi, prog, _depth=0):
         for v in e.values:
             if isinstance(v, ast.Constant):
                 parts.append(str(v.value))
+            elif isinstance(v, ast.FormattedValue) and v.format_spec is None and v.conversion == -1:
+                x = fold_str(v.value, fi, prog, _depth + 1)
+                if x is None:
+                    return None
+                parts.append(x)
             else:
                 return None
         return "".join(parts)
+    if isinstance(e, ast.Attribute) and isinstance(e.value, ast.Name) and fi.cls is not None and e.value.id in ("self", "cls", fi.cls.name) and e.attr in fi.cls.attrs:
+        return fold_str_mod(fi.cls.attrs[e.attr], fi.mod, prog)
+    if isinstance(e, ast.Call) and isinstance(e.func, ast.Attribute) and e.func.attr == "format" and not e.keywords:
+        base = fold_str(e.func.value, fi, prog, _depth + 1)
+        args = [fold_str(a, fi, prog, _depth + 1) for a in e.args]
+        if base is not None and all(a is not None for a in args):
+            try:
+                return base.format(*args)
+            except Exception:
+                return None
+        return None
     if isinstance(e, ast.Name):
         if e.id in fi.params:
             return None
@@ -391,6 +407,19 @@ def fold_str(e, fi, prog, _depth=0):
 def fold_str_mod(e, mi, prog):
     if isinstance(e, ast.Constant) and isinstance(e.value, str):
         return e.value
+    if isinstance(e, ast.JoinedStr):
+        parts = []
+        for v in e.values:
+            if isinstance(v, ast.Constant):
+                parts.append(str(v.value))
+            elif isinstance(v, ast.FormattedValue) and v.format_spec is None and v.conversion == -1:
+                x = fold_str_mod(v.value, mi, prog)
+                if x is None:
+                    return None
+                parts.append(x)
+            else:
+                return None
+        return "".join(parts)
     if isinstance(e, ast.BinOp) and isinstance(e.op, ast.Add):
         a, b = fold_str_mod(e.left, mi, prog), fold_str_mod(e.right, mi, prog)
         return None if a is None or b is None else a + b
